@@ -87,16 +87,21 @@ func mtLocalEvent(bl []mtBlock) []map[string]any {
 	return out
 }
 
-func waitFor(t *testing.T, what string, d time.Duration, cond func() bool) {
-	t.Helper()
+// waitFor polls cond until it holds or the (generous) deadline passes. A timeout is reported to the caller,
+// which abandons the scenario and records that (End.aborted): it is neither a verdict nor a harness crash.
+func waitFor(what string, d time.Duration, cond func() bool) bool {
 	deadline := time.Now().Add(d)
 	for !cond() {
 		if time.Now().After(deadline) {
-			t.Fatalf("harness: timed out after %v waiting for %s (not a verdict)", d, what)
+			return false
 		}
 		time.Sleep(20 * time.Millisecond)
 	}
+	return true
 }
+
+// mtAbort is panicked (and recovered in runC35Multi) to abandon a scenario.
+type mtAbort struct{ why string }
 
 // caseBuffer collects the events of one scenario; scenarios run concurrently (they mostly wait for the
 // code's 1 s head-compaction ticker) and the trace spec needs the lines of a case to be contiguous.
@@ -135,6 +140,23 @@ func runC35MultiAll(t *testing.T, tr *vt.Tracer, firstID int64, cases []vt.Case)
 type emitter interface{ Emit(vt.Event) }
 
 func runC35Multi(t *testing.T, tr emitter, caseID int64, c vt.Case) {
+	headerDone := false
+	defer func() {
+		// a scenario that cannot go on (the code under test did not make the expected progress, returned an
+		// unexpected error, ...) is recorded, never fatal: what was observed up to here is still judged
+		if r := recover(); r != nil {
+			a, ok := r.(mtAbort)
+			if !ok {
+				panic(r)
+			}
+			if !headerDone {
+				tr.Emit(vt.Event{"ev": "case", "case": caseID, "in": c, "kf": "", "local": []any{}, "uc": false, "cur": []any{},
+					"objs0": []any{}, "listed0": []any{}, "file0": map[string]any{"present": false, "uploaded": []string{}}})
+			}
+			tr.Emit(vt.Event{"ev": "End", "case": caseID, "final_ok": false, "aborted": a.why})
+		}
+	}()
+	abort := func(format string, args ...any) { panic(mtAbort{fmt.Sprintf(format, args...)}) }
 	ctx := context.Background()
 	ntb := vt.Ints(c["tenants"])
 	ops := vt.Strs(c["ops"])
@@ -175,6 +197,7 @@ func runC35Multi(t *testing.T, tr emitter, caseID int64, c vt.Case) {
 	// header: no local blocks yet (they are produced by the code's own head compaction)
 	tr.Emit(vt.Event{"ev": "case", "case": caseID, "in": c, "kf": "", "local": []any{}, "uc": false, "cur": []any{},
 		"objs0": []any{}, "listed0": []any{}, "file0": map[string]any{"present": false, "uploaded": []string{}}})
+	headerDone = true
 
 	rec.Observe(func(op bucketrec.Op) {
 		if !op.IsMutation() {
@@ -195,7 +218,7 @@ func runC35Multi(t *testing.T, tr emitter, caseID int64, c vt.Case) {
 	appendSamples := func(tn string, nblocks int) {
 		app, err := m.TenantAppendable(tn)
 		if err != nil {
-			t.Fatal(err)
+			abort("TenantAppendable(%s): %v", tn, err)
 		}
 		lag := 30 - 6*batches[tn]
 		if lag < 8 {
@@ -209,14 +232,14 @@ func runC35Multi(t *testing.T, tr emitter, caseID int64, c vt.Case) {
 		}
 		end := start + int64(nblocks)*mtBlockMs
 		lastEnd[tn] = end
-		waitFor(t, "tenant TSDB ready", 30*time.Second, func() bool {
+		appended := waitFor("tenant TSDB ready", 30*time.Second, func() bool {
 			ap, err := app.Appender(ctx)
 			if err != nil {
 				return false
 			}
 			for ts := start + 100; ts < end; ts += 300 {
 				if _, err := ap.Append(0, labels.FromStrings("__name__", "m", "tenant", tn), ts, float64(ts%1000)); err != nil {
-					t.Fatalf("append: %v (tenant %s ts %d start %d end %d now %d)", err, tn, ts, start, end, time.Now().UnixMilli())
+					abort("append: %v (tenant %s ts %d start %d end %d now %d)", err, tn, ts, start, end, time.Now().UnixMilli())
 				}
 			}
 			if err := ap.Commit(); err != nil {
@@ -224,6 +247,9 @@ func runC35Multi(t *testing.T, tr emitter, caseID int64, c vt.Case) {
 			}
 			return true
 		})
+		if !appended {
+			abort("tenant %s TSDB not ready within 30 s", tn)
+		}
 	}
 	for i, tn := range tenants {
 		appendSamples(tn, ntb[i])
@@ -231,7 +257,9 @@ func runC35Multi(t *testing.T, tr emitter, caseID int64, c vt.Case) {
 	// the code's periodic head compaction (every max-block-duration) cuts the blocks
 	for i, tn := range tenants {
 		want := ntb[i]
-		waitFor(t, "periodic head compaction of "+tn, 60*time.Second, func() bool { return len(mtLocal(work, tn, al)) >= want })
+		if !waitFor("periodic head compaction of "+tn, 60*time.Second, func() bool { return len(mtLocal(work, tn, al)) >= want }) {
+			abort("no periodic head compaction of %s within 60 s", tn)
+		}
 	}
 	time.Sleep(50 * time.Millisecond) // lastSuccessfulHeadCompaction is stored right after the block appears
 
@@ -283,7 +311,7 @@ func runC35Multi(t *testing.T, tr emitter, caseID int64, c vt.Case) {
 				}
 			}
 			if err := m.Prune(ctx); err != nil {
-				t.Fatalf("prune: %v", err)
+				abort("prune: %v", err)
 			}
 			pruned := []map[string]any{}
 			for _, tn := range tenants {
@@ -305,7 +333,7 @@ func runC35Multi(t *testing.T, tr emitter, caseID int64, c vt.Case) {
 				}
 				appendSamples(tn, 1)
 				// wait until the new block was cut (the block reload that follows applies the TSDB retention)
-				waitFor(t, "head compaction after append of "+tn, 60*time.Second, func() bool {
+				cut := waitFor("head compaction after append of "+tn, 60*time.Second, func() bool {
 					for _, b := range mtLocal(work, tn, al) {
 						if !seen[b.alias] {
 							return true
@@ -313,11 +341,14 @@ func runC35Multi(t *testing.T, tr emitter, caseID int64, c vt.Case) {
 					}
 					return false
 				})
+				if !cut {
+					abort("no head compaction after append of %s within 60 s", tn)
+				}
 			}
 			time.Sleep(100 * time.Millisecond)
 			observeLocal()
 		default:
-			t.Fatalf("unknown op %q", op)
+			abort("unknown op %q", op)
 		}
 	}
 	tr.Emit(vt.Event{"ev": "End", "case": caseID, "final_ok": true})
